@@ -17,7 +17,7 @@
 (*         Exact, NoWrapWhenFits, grant => used <= max, quiescent => 0.     *)
 (* sop     {t, k, x, y, ok, o, tryonly} unscheduled stress: thread t        *)
 (*         finished operation k (thread-local effect only; the linearization*)
-(*         order is unknown); o = a used() it read afterwards (or NULL);    *)
+(*         order is unknown); o = a used() it read afterwards;             *)
 (*         in a try-only workload every such reading is <= max.             *)
 (* barrier {u, live}  all threads quiescent at a barrier: used() = sum of   *)
 (*         the live sizes (the spec's and the observed size()s).            *)
@@ -105,7 +105,7 @@ Sop ==
        /\ e.k \in {A_GROW, A_SHRINK, A_DROP} => e.x \in DOMAIN res[e.t]
        /\ e.k = A_LOAD => e.ok \in {0, 1}
        /\ res' = [res EXCEPT ![e.t] = SopEffect(e)]
-       /\ (e.tryonly = 1 /\ e.o # NULL) => ULe(e.o, max)
+       /\ e.tryonly = 1 => ULe(e.o, max)      \* NULL (unrepresentable) is far above any small limit
        \* a grant is never beyond the limit by more than what others forced in: in a
        \* try-only workload the grant itself is bounded
        /\ (e.tryonly = 1 /\ e.k = A_LOAD /\ e.ok = 1) => ULe(e.x, max)
